@@ -605,8 +605,9 @@ def rule_r8(chk, db):
     e = inline.inlined(db, db.body(DE + "Deserializer::<'xml>::expect_eof"))
     if e is not None:
         okr = True
+        live = flow.reach(e, [0], removed=frozenset(paths.const_dead_edges(e)))     # arms of a shared `expect(kind)` that `Eof` does not select
         for w in flow.return_writes(e):
-            if w["kind"] == "Ok":
+            if w["kind"] == "Ok" and w["bi"] in live:
                 f = guards.dominating_facts(e, w["bi"])
                 okr = okr and any(x[0] == "enum" and "DeEvent" in x[1] and x[2] == frozenset(["Eof"]) for x in f)
         chk.verdict(okr, "R8", "expect_eof-only-on-eof", e.loc(), "expect_eof returns Ok on something other than end of input", nontrivial=False)
